@@ -93,7 +93,7 @@ def direct(seed, tier, model, stats):
     for N in Ns:
         for _ in range(2 if tier == "quick" else 6):
             kind = r.choice(["HP", "LP"])
-            order = r.choice([1, 2, 3])
+            order = r.choice([1, 2, 3, 1, 2, 3, -1, -2])      # a negative order is the opposite filter
             SR = r.choice([1, 100, 1e4, 1e9])
             fc = SR * r.choice([1e-4, 1e-2, 0.12, 0.5, 3])
             dc = r.choice([0.5, 1, 2])
@@ -174,6 +174,13 @@ def direct(seed, tier, model, stats):
                 lhs, rhs = fn(2 * x - 3 * y), 2 * fn(x) - 3 * fn(y)
                 if np.max(np.abs(lhs - rhs)) > 1e-8 * float(np.max(np.abs(H))) * N:
                     d = f"{label}: not linear in the signal"
+            if d is None:
+                # history: an RC filter for the same (N, SR) right after the custom transfer function was used
+                kind2 = r.choice(["HP", "LP"])
+                x = np.array([r.uniform(-1, 1) for _ in range(N)])
+                d = bins_check(lambda z: ripasso.applyRCFilter(z, SR, kind2, 0.12 * SR, 1, DCgain=1),
+                               f"applyRCFilter({kind2}, order 1, f_cut {0.12 * SR}, N={N}, SR={SR}) after " + label, x,
+                               H_doc(kind2, SR, 0.12 * SR, 1, 1, N), N)
         except Exception as e:  # noqa: BLE001
             d = f"{label}: raised {type(e).__name__}: {e}"
         if d:
